@@ -60,6 +60,7 @@ struct venv {
 };
 
 extern struct vm_params VM;
+extern struct venv vm_core_env;
 extern struct venv *vm_env; /* selected environment (set by the engine before events are dispatched) */
 
 extern void vm_generate(uint64_t seed, unsigned size_class);
@@ -86,6 +87,7 @@ extern void (*vm_fini_observer)(lp_id_t me, const struct vm_state *s);
 
 /* ---------------- reference executor ---------------- */
 struct ref_ev {
+	uint64_t gidx; /* 1-based position in the global delivery order of the reference run */
 	double ts;
 	uint32_t type, size;
 	uint64_t plh;
@@ -102,6 +104,7 @@ struct ref_lp {
 };
 struct ref_result {
 	struct ref_lp lp[VM_MAXLP];
+	uint64_t delivered;         /* events delivered in total (including those beyond the stop point) */
 	uint64_t total_events;      /* events delivered until the stop point */
 	uint64_t stop_index;        /* global index (1-based count) of the event at which all predicates held; 0 if never */
 	double stop_ts;             /* its timestamp */
